@@ -85,7 +85,10 @@ func VerifC07Dispatch() {
 	w.c.bus = b
 	// the link's local peer is what the link says it is; the transport's own id may differ
 	local := tcPeers[rt.Choose("local", 2)]
-	remote := tcPeers[1+rt.Choose("remote", 2)]
+	remote := tcPeers[1]
+	if rt.Tier() > 0 {
+		remote = tcPeers[1+rt.Choose("remote", 2)]
+	}
 	l := w.newLink("in", rt.U64("uuid"), remote)
 	l.local = local
 	var wire []byte
@@ -118,9 +121,14 @@ func VerifC07Dispatch() {
 	}
 	headerKind := len(id) > 0
 	strm := &c07ChunkStream{r: &c07Reader{data: wire, free: free, eofWithData: rt.Choose("eofWithLastBytes", 2) == 1}}
-	b.mode = rt.Choose("lookup", 3)
-	if rt.Choose("handlerFails", 2) == 1 {
+	// the lookup answers with a handler that accepts, a handler that refuses, a non-handler value, or idle+error
+	switch rt.Choose("lookup", 4) {
+	case 1:
 		b.handler.retErr = errors.New("handler refused")
+	case 2:
+		b.mode = 1
+	case 3:
+		b.mode = 2
 	}
 	done := false
 	rt.Go("incoming", func() {
